@@ -202,7 +202,7 @@ impl Check for C03 {
         "one case = one seeded program: either a G-loop program (busy work and/or an endless loop reached through 1-3 levels of \
          host re-entry (call0 stub called by card or as a native function value, try0 stub that swallows the callee's failure), __sort/__min key functions, std.map callbacks or plain calls) or a G-alloc program with \
          host re-entry and stdlib callbacks. T = instructions it needs (dry run). The budget N is then swept: every N in \
-         1..=T+2 (seeded subset above a per-tier cap) plus T-1, T, T+1, 2T+1, 10T+1; fixed and seeded budgets for \
+         1..=T+2 (seeded subset above a per-tier cap) plus T-1, T, T+1, 2T+1, 10T+1, u64::MAX-1, u64::MAX; fixed and seeded budgets for \
          non-terminating programs. Every dispatch of every nested activation is counted by the controller. A run is \
          non-trivial if it was executed under a finite budget; distinct = distinct (program hash, N)."
             .to_string()
